@@ -37,6 +37,9 @@ type DetCase struct {
 	SeamA    Seam              `json:"seam_a"`
 	SeamB    Seam              `json:"seam_b"`
 	Proc     bool              `json:"proc"` // also run as a separate OS process
+	// Interfere names another template that is executed in the same process between two executions of Template: state
+	// leaking from one command (or one library call) into the next shows as a difference between those two
+	Interfere string `json:"interfere,omitempty"`
 }
 
 type detTemplate struct {
@@ -136,7 +139,7 @@ func init() {
 		Rule: fmt.Sprintf("case = (one of %d command templates with --seed given, generated input files: tree collections on 6..9 taxa, multifurcating / binary / rooted trees, a "+
 			"protein alignment with the ambiguity code X and gaps, a nucleotide alignment with IUPAC codes, tip states, rename / annotation / tip / group files; thread "+
 			"count 1..4 for threaded commands; two seam settings A and B, each = (map-iteration order seed, wall-clock epoch, goroutine schedule)). The command runs "+
-			"in-process through cmd.RootCmd inside the scheduler under A, under B, under A again, and — for a share of the cases — as separate OS processes of the "+
+			"in-process through cmd.RootCmd inside the scheduler under A, under B, (for half of the cases: another template, often of the same command family, in between,) under A again, and — for a share of the cases — as separate OS processes of the "+
 			"instrumented binary under both map seeds. Oracle: all outputs (main output, extra files, stdout) byte-identical; per-tree records of threaded commands "+
 			"compared after sorting lines; documented date lines of support logs masked. Non-trivial: the command succeeded and wrote ≥ 1 non-empty output; distinct = "+
 			"distinct (template, inputs, seed, threads)", len(detTemplates)),
@@ -146,7 +149,7 @@ func init() {
 		Real: []string{"cmd.RootCmd and every command of the templates (cobra, flag parsing, readers, writers)", "asr / acr parsimony", "generators and randomised edits through the global math/rand source",
 			"the instrumented gotree binary as a separate process"},
 		Simulated: []string{"map-iteration order of every string/integer-keyed map range in gotree (seeded permutation of the sorted keys)", "goroutine schedule", "wall clock", "process boundary"},
-		Expected:  []string{"ran-ok", "cross-process", "threads>1", "mapseed-differs", "epoch-differs", "asr-protein-with-X"},
+		Expected:  []string{"ran-ok", "cross-process", "threads>1", "mapseed-differs", "epoch-differs", "asr-protein-with-X", "interfering-command"},
 	})
 }
 
@@ -288,6 +291,22 @@ func genC18(rt *rapid.T, tier string) any {
 	c.Threads = rapid.SampledFrom([]int{1, 2, 3, 4}).Draw(rt, "threads")
 	c.SeamA, c.SeamB = genSeam(rt, "a"), genSeam(rt, "b")
 	c.Proc = rapid.IntRange(0, 3).Draw(rt, "proc") == 0
+	if rapid.Bool().Draw(rt, "interfere") {
+		c.Interfere = detTemplates[rapid.IntRange(0, len(detTemplates)-1).Draw(rt, "itemplate")].name
+		if rapid.Bool().Draw(rt, "samefamily") {
+			// another command of the same family (same first word: asr after asr, compute after compute, ...)
+			fam := templateByName(c.Template).args[0]
+			var same []string
+			for _, t := range detTemplates {
+				if t.args[0] == fam && t.name != c.Template {
+					same = append(same, t.name)
+				}
+			}
+			if len(same) > 0 {
+				c.Interfere = rapid.SampledFrom(same).Draw(rt, "ifamily")
+			}
+		}
+	}
 	return c
 }
 
@@ -505,6 +524,14 @@ func execC18(t *testing.T, cc any, o *Outcome) {
 	}
 	a1 := runInProcess(t, dir, tpl, c, c.SeamA, "a1")
 	b := runInProcess(t, dir, tpl, c, c.SeamB, "b")
+	if itpl := templateByName(c.Interfere); itpl != nil {
+		ic := *c
+		if !itpl.threaded {
+			ic.Threads = 1
+		}
+		runInProcess(t, dir, itpl, &ic, c.SeamB, "x") // result ignored: only its side effects on the process matter
+		o.Probe("interfering-command")
+	}
 	a2 := runInProcess(t, dir, tpl, c, c.SeamA, "a2")
 	o.Steps = 3
 	if a1.status == "ok" {
